@@ -286,19 +286,20 @@ theorem union_row_appends {p fs types offs cur} {i : Nat} {pc : B → R B} {b' :
   exact ⟨this.1, _, this.2⟩
 
 theorem pushByteElems_appends (ext : Ext) (large : Bool) : ∀ (bs : Bytes) (el : B) (base : List Int) (l : Int) (r : B × List Int),
-    WFB el → pushByteElems ext large el (base ++ [l]) bs = .ok r →
+    WFB el → Safe el → pushByteElems ext large el (base ++ [l]) bs = .ok r →
     WFB r.1 ∧ ∃ ls, dec r.1 = dec el ++ ls ∧ r.2 = base ++ [l + (ls.length : Int)]
-  | [], el, base, l, r, hwf, h => by
+  | [], el, base, l, r, hwf, _, h => by
     simp [pushByteElems] at h; subst h
     exact ⟨hwf, [], by simp, by simp⟩
-  | x :: rest, el, base, l, r, hwf, h => by
+  | x :: rest, el, base, l, r, hwf, hs, h => by
     simp only [pushByteElems] at h
     obtain ⟨o', h1, h⟩ := (bind_ok _ _ _).1 h
     obtain ⟨el', h2, h⟩ := (bind_ok _ _ _).1 h
     have := incrementLast_snoc h1
     subst this
-    obtain ⟨hel', lv, hdec, _⟩ := pushScalar_appends ext el _ el' hwf ((ctx_ok _ _ _).1 h2)
-    obtain ⟨hr, ls, hd, ho⟩ := pushByteElems_appends ext large rest el' base (l + 1) r hel' h
+    obtain ⟨hel', lv, hdec, _⟩ := pushScalar_appends ext el _ el' hwf hs ((ctx_ok _ _ _).1 h2)
+    have hs' := Safe.of_takeRest (pushScalar_takeRest ext el _ el' ((ctx_ok _ _ _).1 h2)) hs
+    obtain ⟨hr, ls, hd, ho⟩ := pushByteElems_appends ext large rest el' base (l + 1) r hel' hs' h
     refine ⟨hr, lv :: ls, by rw [hd, hdec]; simp, ?_⟩
     rw [ho]; simp; omega
 
